@@ -19,7 +19,7 @@ use bc_envelope::{Assertion, SignatureMetadata};
 use std::collections::HashSet;
 use std::sync::atomic::{AtomicU32, Ordering};
 
-pub const N_SHAPES: u64 = 130;
+pub const N_SHAPES: u64 = 134;
 
 /// Does the encoding contain a date leaf (#6.1) outside the range dcbor/chrono can represent?
 /// Such documents trip known finding D7 in every formatting / date-extracting call, and the
@@ -285,7 +285,48 @@ pub fn call_shape(env: &Envelope, other: &Envelope, shape: u64, a: u64, b: u64) 
                 Err(_) => "err",
             }
         }
-        _ => { let _ = r(Envelope::sskr_join(&[env, other])); r(Envelope::sskr_join(&[env])) }
+        129 => { let _ = r(Envelope::sskr_join(&[env, other])); r(Envelope::sskr_join(&[env])) }
+        // ---- the empty batch, the empty set, the empty list ----
+        130 => {
+            let none: [Envelope; 0] = [];
+            let _ = r(env.add_assertion_envelopes(&none));
+            let _ = env.add_assertions(&none);
+            let _ = env.add_assertions_salted(&none, a % 2 == 0);
+            let _ = r(env.add_optional_assertion_envelope(None));
+            let _ = r(env.add_optional_assertion_envelope_salted(None, b % 2 == 0));
+            let _ = env.add_optional_assertion("nothing", None::<Envelope>);
+            "ok"
+        }
+        131 => {
+            let none: [&dyn DigestProvider; 0] = [];
+            let empty = std::collections::HashSet::new();
+            let _ = env.elide_removing_array(&none);
+            let _ = env.elide_revealing_array(&none);
+            let _ = env.elide_removing_set(&empty);
+            let _ = env.elide_revealing_set(&empty);
+            let _ = env.elide_set_with_action(&empty, a % 2 == 0, &ObscureAction::Compress);
+            let _ = env.proof_contains_set(&empty);
+            let _ = env.confirm_contains_set(&empty, other);
+            "ok"
+        }
+        132 => {
+            let nobody: [&dyn bc_components::Signer; 0] = [];
+            let nokeys: [&dyn bc_components::Verifier; 0] = [];
+            let _ = env.add_signatures(&nobody);
+            let _ = env.add_signatures_opt(&[]);
+            let _ = r(env.has_signatures_from(&nokeys));
+            let _ = r(env.has_signatures_from_threshold(&nokeys, Some((a % 3) as usize)));
+            let _ = r(env.has_signatures_from_threshold(&nokeys, None));
+            r(env.verify_signatures_from(&nokeys))
+        }
+        _ => {
+            let norecipients: [&dyn bc_envelope::Encrypter; 0] = [];
+            let _ = r(env.encrypt_subject_to_recipients(&norecipients));
+            let _ = r(env.attachments_with_vendor_and_conforms_to(Some(""), Some("")));
+            let _ = r(Envelope::sskr_join(&[]));
+            let _ = env.add_type("");
+            "ok"
+        }
     }
 }
 
